@@ -4217,7 +4217,9 @@ def qr(a, mode='reduced', inner_labels=[None, None], cutoff=None, pos_diag_R=Fal
                 continue
         if pos_diag_R:
             r_diag = np.diag(r_block)
-            phase = r_diag / np.abs(r_diag)
+            phase = np.ones(len(r_diag), dtype=r_diag.dtype)
+            nonzero = np.abs(r_diag) > 0.0  # rank-deficient blocks have zeros on the diagonal
+            phase[nonzero] = r_diag[nonzero] / np.abs(r_diag[nonzero])
             K = len(r_diag)
             if K < q_block.shape[1]:
                 q_block[:, :K] *= phase[np.newaxis, :]
